@@ -154,7 +154,10 @@ def fetch_window_input(mem, op, f):
     if up == 1:
         x = np.repeat(np.repeat(x, 2, axis=0), 2, axis=1)
     elif up == 2:
-        raise Unsupported("transpose upscaling")
+        # TRANSPOSE upscaling: a zero (the zero point, already subtracted) after every element in both axes
+        z = np.zeros((x.shape[0] * 2, x.shape[1] * 2, x.shape[2]), dtype=x.dtype)
+        z[::2, ::2, :] = x
+        x = z
     pt, pb, pl, pr = op.r("IFM_PAD_TOP"), op.r("IFM_PAD_BOTTOM"), op.r("IFM_PAD_LEFT"), op.r("IFM_PAD_RIGHT")
     k = D.kernel_of(op)
     o_h, o_w = op.r("OFM_HEIGHT_M1") + 1, op.r("OFM_WIDTH_M1") + 1
